@@ -462,6 +462,8 @@ class AirTouchSocket(Generic[comms.Hdr]):
             # We shouldn't retry this message, but the connection doesn't need
             # to be reset.
             _LOGGER.exception("Encoding error for message %s", entry.message)
+            # Carry on with the messages that are queued behind this one.
+            await self._drain_message_queue()
 
         except OSError as ex:
             # Connection errors may turn up here rather than in the read method.
